@@ -263,13 +263,15 @@ Definition route_switch (b : base_router) (operand_tpl : text) (cases : list cas
   match m with
   | MError => {| ro_res := RError; ro_saved := None; ro_events := evs |}
   | MPanic => {| ro_res := RPanic; ro_saved := None; ro_events := evs |}
-  | MFound t cat extra => route_to_category b prev cat t operand_str extra evs
-  | MNone =>
-      if negb (N.eqb default no_uuid) then
+  | _ =>
+      let '(mtch, cat, extra) :=
+        match m with MFound t c x => (t, c, x) | _ => ([], no_uuid, None) end in
+      (* "none of our cases matched, so try to use the default": decided on the category UUID alone *)
+      if N.eqb cat no_uuid && negb (N.eqb default no_uuid) then
         let evs' := evs ++ (match to_xtext operand with None => [EvOperandTextError] | Some _ => [] end) in
-        route_to_category b prev default operand_str operand_str None evs'
+        route_to_category b prev default operand_str operand_str extra evs'
       else
-        route_to_category b prev no_uuid [] operand_str None evs
+        route_to_category b prev cat mtch operand_str extra evs
   end.
 
 (* ---- baseRouter.RouteTimeout: timed_out_on is the formatted time of the timeout event (opaque) -------- *)
